@@ -261,7 +261,8 @@ impl MemSource {
     /// Returns an injected error for this read, if any.
     fn fault(&self, entry: &OwnedEntry) -> Option<io::Error> {
         let mut f = lock(&self.shared.faults);
-        if f.counting {
+        let exempt = matches!(entry, OwnedEntry::File(id, _) if id == "zz_sentinel");
+        if f.counting && !exempt {
             let k = f.counter;
             f.counter += 1;
             if let Some((at, kind)) = f.fail_at {
